@@ -42,7 +42,7 @@ MODULES = {
     'C05': ['contracts.mps_layers', 'contracts.wrappers', 'contracts.pit_graph', 'contracts.whole_mps'],
     'C02': ['contracts.mps_layers', 'contracts.whole_mps'],
     'C06': ['contracts.wrappers', 'contracts.pit_graph', 'contracts.whole_supernet'],
-    'C18': ['contracts.wrappers', 'contracts.pit_layers', 'contracts.mps_layers', 'contracts.whole_pit', 'contracts.whole_supernet'],
+    'C18': ['contracts.wrappers', 'contracts.pit_layers', 'contracts.mps_layers', 'contracts.whole_pit', 'contracts.whole_supernet', 'contracts.whole_mps'],
     'C09': ['contracts.c09', 'contracts.pit_layers', 'contracts.pit_graph', 'contracts.whole_pit'],
     'C14': ['contracts.c14'],
     'C20': ['contracts.c20'],
